@@ -70,6 +70,10 @@ def scenarios(tier, seed):
                             d["fixed_seed"] = k
                         if tier == "quick" and ((k + seed) % 2 or (len(nodes) == 4 and any(q.startswith("map_virtual") for q in seq))):
                             continue
+                        if "map_all" in seq:
+                            if len(nodes) > 3 or (tier == "quick" and sname not in ("chain3", "collider3")):
+                                continue
+                            d["max_paths"] = 24 if tier == "quick" else 200
                         out.append(d)
     # representation independence: one question under every relabelling / insertion order
     for sname in ["collider3", "diamond", "collchild"]:
